@@ -541,3 +541,71 @@ func runTrapThrow(p *core.Prog) *core.Result {
 	}
 	return res
 }
+
+// R-COMPATPOLARITY (C11 "lying handlers rejected" / "forwarding proxy equals target"): the proxy's
+// descriptor compatibility predicate (IsCompatiblePropertyDescriptor for the defineProperty and
+// getOwnPropertyDescriptor invariants) rejects a descriptor because a field it specifies DIFFERS
+// from the target's property - never because it is the same. Every `return false` of
+// __isCompatibleDescriptor that is controlled by a sameness test (SameAs / identity of the accessor
+// functions) lies on the not-same edge. The reference implementation of the same table,
+// baseObject._defineOwnProperty, rejects on `!descr.Value.SameAs(existing.value)` and
+// `existing.getterFunc != getterObj`.
+// (On the pinned tree the accessor branch was inverted: an honest forwarding
+// getOwnPropertyDescriptor / defineProperty trap on a non-configurable accessor threw TypeError and
+// a lying one with a different getter was accepted - reported by three independent agents.)
+var CompatPolarity = &core.Rule{Name: "R-COMPATPOLARITY", Run: runCompatPolarity,
+	Doc: "every `return false` of proxyObject.__isCompatibleDescriptor that is controlled by a sameness test of a descriptor field lies on its not-same edge"}
+
+func runCompatPolarity(p *core.Prog) *core.Result {
+	res := core.NewResult("R-COMPATPOLARITY", 2)
+	fn, err := p.GojaMethod("proxyObject", "__isCompatibleDescriptor")
+	if err != nil {
+		return res.Fail(err)
+	}
+	isSameness := func(v ssa.Value) (string, bool) {
+		c, ok := v.(*ssa.Call)
+		if !ok {
+			return "", false
+		}
+		nm := ""
+		if c.Call.IsInvoke() {
+			nm = c.Call.Method.Name()
+		} else if sc := c.Call.StaticCallee(); sc != nil {
+			nm = sc.Name()
+		}
+		switch nm {
+		case "SameAs", "StrictEquals", "sameAccessor", "sameValue":
+			return nm, true
+		}
+		return "", false
+	}
+	n := 0
+	core.AllInstrs(fn, func(in ssa.Instruction) {
+		r, ok := in.(*ssa.Return)
+		if !ok || len(r.Results) != 1 {
+			return
+		}
+		k, ok := r.Results[0].(*ssa.Const)
+		if !ok || k.Value == nil || k.Value.String() != "false" {
+			return
+		}
+		for _, cp := range core.ControllingConds(in.Block()) {
+			nm, ok := isSameness(cp.Cond)
+			if !ok {
+				continue
+			}
+			n++
+			key := fmt.Sprintf("(*proxyObject).__isCompatibleDescriptor:rejects on difference#%d", n)
+			if !cp.Pol {
+				res.OK(key, p.Pos(r.Pos()), "return false on the not-"+nm+" edge")
+			} else {
+				res.Bad(key, p.Pos(r.Pos()), "the descriptor is rejected because a field "+nm+" the target's: an honest forwarding trap on such a property throws TypeError and a lying one is accepted")
+			}
+		}
+	})
+	// a phi-returned false: `return a && b` shapes are not used here; require at least the value test
+	if n == 0 {
+		res.Bad("(*proxyObject).__isCompatibleDescriptor:rejects on difference", p.Pos(fn.Pos()), "no sameness test controls a rejection any more: the value / getter / setter clauses of the invariant are gone")
+	}
+	return res
+}
